@@ -11,12 +11,12 @@ import (
 
 var mixC10 = Mix{Set: 24, Delete: 10, Get: 2, GetItem: 3, MinMax: 2, Visit: 3, Iter: 1, Flush: 5, Evict: 5, Reopen: 2,
 	Snapshot: 6, SnapRead: 6, SnapClose: 6, SnapOfSnap: 2, SnapRevert: 1,
-	SetCollNew: 2, SetCollExisting: 4, RemoveColl: 3, FlushRevert: 1, Close: 2, PinVisit: 6, ResumeVisit: 6, CopyTo: 1}
+	SetCollNew: 2, SetCollExisting: 4, RemoveColl: 3, FlushRevert: 1, Close: 2, PinVisit: 6, ResumeVisit: 6, CopyTo: 1, FaultyMut: 4}
 
 func init() {
 	register(&Prop{
 		ID: "C10", Level: "exploration",
-		Rule: "case = 2-3 stores (file-backed and memory-only) in one process, sharing gkvlite's package-global free lists, each with 1-3 collections; every step picks a store and performs one operation: mutations, visits that are SUSPENDED inside their callback while later steps run and are resumed afterwards (readers holding version pins), snapshots (and snapshots of snapshots) released in arbitrary order, SetCollection on existing names, RemoveCollection, Close, re-open, FlushRevert. After EVERY step: (a) reuse forcing - a scratch store takes every node off the free list and overwrites it with foreign data; (b) the complete contents of every open handle of every store are compared with per-handle models; (c) with the verif hooks, no node reachable from a live version is on a free list, zeroed, or carries the reclaim mark of a version that can die first, and no live version handle / root nodeLoc is on its free list. Non-trivial = at least one version was released (snapshot/visit/collection/store) while another handle sharing nodes stayed open and was read afterwards, and nodes were actually recycled; distinct = distinct op-trace hash.",
+		Rule: "case = 2-3 stores (file-backed and memory-only) in one process, sharing gkvlite's package-global free lists, each with 1-3 collections; every step picks a store and performs one operation: mutations, visits that are SUSPENDED inside their callback while later steps run and are resumed afterwards (readers holding version pins), snapshots (and snapshots of snapshots) released in arbitrary order, SetCollection on existing names, RemoveCollection, Close, re-open, FlushRevert, and mutations that fail half way because one file read fails (after which later successful mutations supersede the touched nodes). After EVERY step: (a) reuse forcing - a scratch store takes every node off the free list and overwrites it with foreign data; (b) the complete contents of every open handle of every store are compared with per-handle models; (c) with the verif hooks, no node reachable from a live version is on a free list, zeroed, or carries the reclaim mark of a version that can die first, and no live version handle / root nodeLoc is on its free list. Non-trivial = at least one version was released (snapshot/visit/collection/store) while another handle sharing nodes stayed open and was read afterwards, and nodes were actually recycled; distinct = distinct op-trace hash.",
 		Assumptions: []string{
 			"handles of replaced/removed collections and closed stores are not used again, except by a visit that was already in flight",
 			"one mutator per store; the suspended readers are blocked, so there is no true parallelism in this check (that is C05's)",
@@ -24,7 +24,7 @@ func init() {
 		NumCases: func(tier string) int { return pick(tier, 800, 30000) },
 		Run:      runC10,
 		Floor: func(tier string, st map[string]int64) string {
-			for _, k := range []string{"op.PinVisit", "op.ResumeVisit", "op.SnapClose", "op.SetCollection.existing", "op.RemoveCollection", "churn.inserts", "walks", "c10.nodes-recycled", "c10.multi-store-cases"} {
+			for _, k := range []string{"op.PinVisit", "op.ResumeVisit", "op.SnapClose", "op.SetCollection.existing", "op.RemoveCollection", "churn.inserts", "walks", "c10.nodes-recycled", "c10.multi-store-cases", "failed-mutations"} {
 				if st[k] == 0 {
 					return "no " + k + " observed"
 				}
